@@ -98,6 +98,8 @@ func H_Order() {
 	var order []int
 	if n == 3 {
 		order = perms3[vrt.Pick("perm", 0, len(perms3)-1)]
+	} else if n == 4 {
+		order = [][]int{{0, 1, 2, 3}, {1, 0, 2, 3}, {3, 2, 1, 0}, {2, 3, 0, 1}}[vrt.Pick("perm", 0, 3)]
 	} else {
 		order = []int{1, 0, 2, 3}[:n]
 		if vrt.Pick("perm", 0, 1) == 0 {
